@@ -15,6 +15,7 @@ import (
 	"io"
 	"log"
 	"os"
+	"sort"
 	"strings"
 
 	"github.com/buchgr/bazel-remote/v2/cache"
@@ -98,6 +99,23 @@ func cTree(t *pb.Tree) string {
 	return fmt.Sprintf("(mkTree %s %s)", cDir(t.Root), CList(cs))
 }
 
+// a backend that only answers Contains (from a table); Get misses, uploads are swallowed
+type acProxy struct{ has map[string]int64 }
+
+func (p *acProxy) Put(ctx context.Context, kind cache.EntryKind, hash string, logicalSize int64, sizeOnDisk int64, rc io.ReadCloser) {
+	_, _ = io.Copy(io.Discard, rc)
+	_ = rc.Close()
+}
+func (p *acProxy) Get(ctx context.Context, kind cache.EntryKind, hash string, size int64) (io.ReadCloser, int64, error) {
+	return nil, -1, nil
+}
+func (p *acProxy) Contains(ctx context.Context, kind cache.EntryKind, hash string, size int64) (bool, int64) {
+	if sz, ok := p.has[hash]; ok && kind == cache.CAS {
+		return true, sz
+	}
+	return false, -1
+}
+
 type stored struct {
 	kind string
 	hash string
@@ -118,7 +136,15 @@ func driver(seed uint64, n int, outV, outJSON string, _ []string) {
 		mode := map[bool]string{true: "zstd", false: "uncompressed"}[zstdMode]
 		max := int64(64+r.Intn(3)*64) * 1024
 		dir, _ := os.MkdirTemp("", "verif-acdeps-")
-		dc, err := disk.New(dir, max, disk.WithAccessLogger(log.New(io.Discard, "", 0)), disk.WithStorageMode(mode))
+		withProxy := r.Chance(45)
+		maxProxy := int64(1) << 40
+		px := &acProxy{has: map[string]int64{}}
+		opts := []disk.Option{disk.WithAccessLogger(log.New(io.Discard, "", 0)), disk.WithStorageMode(mode)}
+		if withProxy {
+			maxProxy = []int64{1 << 40, 1 << 40, 1500, 2999, 3000}[r.Intn(5)]
+			opts = append(opts, disk.WithProxyBackend(px), disk.WithProxyMaxBlobSize(maxProxy))
+		}
+		dc, err := disk.New(dir, max, opts...)
 		if err != nil {
 			panic(err)
 		}
@@ -126,7 +152,7 @@ func driver(seed uint64, n int, outV, outJSON string, _ []string) {
 		var setup []stored
 		var refs []*pb.Digest // every referenced digest, in traversal order (trees included)
 		state := map[string]string{}
-		text := []string{fmt.Sprintf("mode=%s max=%d", mode, max)}
+		text := []string{fmt.Sprintf("mode=%s max=%d proxy=%v maxproxy=%d", mode, max, withProxy, maxProxy)}
 		newBlob := func() []byte { return r.Bytes(1 + r.Intn(3000)) }
 		// decide the fate of a referenced blob and return the digest the message will carry
 		ref := func(data []byte) *pb.Digest {
@@ -138,6 +164,11 @@ func driver(seed uint64, n int, outV, outJSON string, _ []string) {
 				state[d.Hash] = "present"
 			case p < 85:
 				state[d.Hash] = "absent"
+				if withProxy && r.Chance(60) {
+					// held by the backend only: counts as present unless it is above max_proxy_blob_size
+					px.has[d.Hash] = d.SizeBytes
+					state[d.Hash] = "backend"
+				}
 			default:
 				cid++
 				setup = append(setup, stored{"CAS", d.Hash, data, cid})
@@ -203,10 +234,18 @@ func driver(seed uint64, n int, outV, outJSON string, _ []string) {
 			ar.OutputDirectories = append(ar.OutputDirectories, &pb.OutputDirectory{Path: fmt.Sprintf("out/d%d", i), TreeDigest: td})
 		}
 		if r.Chance(50) {
-			ar.StdoutDigest = ref(newBlob())
+			data := newBlob()
+			ar.StdoutDigest = ref(data)
+			if r.Chance(35) {
+				ar.StdoutRaw = data // inlined AND referenced: the digest must still be checked
+			}
 		}
 		if r.Chance(40) {
-			ar.StderrDigest = ref(newBlob())
+			data := newBlob()
+			ar.StderrDigest = ref(data)
+			if r.Chance(35) {
+				ar.StderrRaw = data
+			}
 		}
 		// the walk of GetValidatedActionResult: files, then per directory (tree, tree files), then stdout, stderr.
 		// refs was built in construction order: files, (tree placeholder, files)*, stdout, stderr — the same.
@@ -281,6 +320,9 @@ func driver(seed uint64, n int, outV, outJSON string, _ []string) {
 			if sz, in := local["cas/"+d.Hash]; in && sz == d.SizeBytes {
 				ok = true
 			}
+			if _, in := px.has[d.Hash]; in && withProxy && d.SizeBytes <= maxProxy {
+				ok = true // the backend holds it and may be asked
+			}
 			if !ok {
 				allPresent = false
 			}
@@ -301,7 +343,7 @@ func driver(seed uint64, n int, outV, outJSON string, _ []string) {
 			// most recently used entries afterwards
 			want := map[string]bool{"ac/" + acKey: true}
 			for _, d := range refs {
-				if !(d.Hash == emptySha && d.SizeBytes == 0) {
+				if _, in := local["cas/"+d.Hash]; in && !(d.Hash == emptySha && d.SizeBytes == 0) {
 					want["cas/"+d.Hash] = true
 				}
 			}
@@ -328,7 +370,12 @@ func driver(seed uint64, n int, outV, outJSON string, _ []string) {
 			rep.Samples = append(rep.Samples, caseText)
 		}
 		rep.Evaluations += len(setup) + 1
-		cases = append(cases, fmt.Sprintf("((mkCfg %s %s %s false), %s, %s,\n %s, %s, %s, %s, %s)", CB(zstdMode), CZ(1<<40), CZ(1<<40), CZ(max), CList(setupT), CList(arTable), CList(treeTable), HS(acKey), outcome, CList(orderT)))
+		var hasT []string
+		for h, sz := range px.has {
+			hasT = append(hasT, fmt.Sprintf("(%s, BHasYes %s)", HS(h), CZ(sz)))
+		}
+		sort.Strings(hasT)
+		cases = append(cases, fmt.Sprintf("((mkCfg %s %s %s %s), %s, %s,\n %s, %s, %s, %s, %s, %s)", CB(zstdMode), CZ(1<<40), CZ(maxProxy), CB(withProxy), CZ(max), CList(setupT), CList(arTable), CList(treeTable), HS(acKey), outcome, CList(orderT), CList(hasT)))
 		_ = os.RemoveAll(dir)
 	}
 	rep.Cases = n
